@@ -36,7 +36,7 @@ Section StatusProofs.
 Variable hash : Type.
 Notation rev := (rev hash).
 
-Definition lin (dirty : bool) : cfg := mkCfg Linear None false dirty.
+Definition lin (dirty : bool) : cfg := mkCfg Linear None true dirty.
 
 (** The Count/Total rule of [Report] (last revision partially applied and not resolved). *)
 Definition count_total (all : list file) (revs : list rev) (cnt tot : nat) : Prop :=
@@ -48,12 +48,13 @@ Definition count_total (all : list file) (revs : list rev) (cnt tot : nat) : Pro
       else cnt = 0 /\ tot = 0
   end.
 
-(** ** 1. no revisions table = empty table on a clean database *)
-Lemma report_no_table dirty all (revs : list rev) :
-  report false dirty all revs = report true false all [].
+(** ** 1. no revisions table = empty table, whatever else the database holds *)
+Lemma report_no_table dirty dirty' all (revs : list rev) :
+  report false dirty all revs = report true dirty' all [].
 Proof.
   unfold report. cbn [negb]. cbv iota.
   unfold pending. cbn [last_opt c_dirty c_allow_dirty c_baseline andb negb fst].
+  rewrite andb_false_r. cbn [andb fst].
   destruct (files_from_last_checkpoint all) as [|a l] eqn:E; reflexivity.
 Qed.
 
@@ -157,7 +158,7 @@ Qed.
 (** ** 3. Report never panics; its errors are Pending's *)
 Lemma report_no_panic has_table dirty all (revs : list rev) : report has_table dirty all revs <> SPanic.
 Proof.
-  destruct has_table; [|rewrite report_no_table].
+  destruct has_table; [|rewrite (report_no_table dirty false)].
   2:{ clear revs dirty. unfold report. cbn [negb]. cbv iota.
       destruct (fst (pending _ all [])) as [p| | | |v|sk p|] eqn:Ep; try discriminate.
       - rewrite Nat.eqb_refl. cbn. discriminate.
@@ -242,7 +243,7 @@ Proof.
       rewrite (pending_refines hash (lin dirty) all [] Hsa Hsr) in H.
       unfold pending_spec, first_spec in *. rewrite Hb, Hd. cbn [andb fst].
       cbn [lin c_dirty c_allow_dirty c_baseline negb andb] in H.
-      destruct dirty; cbn [andb fst] in H; [destruct H|].
+      rewrite andb_false_r in H. cbn [andb fst] in H.
       apply shows_const; [|exact H].
       destruct (from_last_ckpt all) as [|f l]; [left; reflexivity|right; exists f, l; reflexivity].
     - rewrite <- Er in *. assert (revs <> []) as Hne by (subst; discriminate).
@@ -259,7 +260,7 @@ Proof.
           apply shows_const; [left; reflexivity|exact H]. }
   destruct has_table.
   - exact (Main dirty revs Hsr H).
-  - rewrite report_no_table in H. apply (Main false []); [constructor|exact H].
+  - rewrite (report_no_table dirty false) in H. apply (Main false []); [constructor|exact H].
 Qed.
 
 (** On a database without a revisions table the report starts at the LAST checkpoint. *)
@@ -268,7 +269,7 @@ Lemma report_fresh_checkpoint dirty (revs : list rev) pre ck rest :
   report false dirty (pre ++ ck :: rest) revs =
   SOk (mkStatus (ck :: rest) [] (ck :: rest) [] CurNone (NextVer (f_version ck)) 0 0 false false).
 Proof.
-  intros Hck Hrest. rewrite report_no_table. unfold report. cbn [negb]. cbv iota.
+  intros Hck Hrest. rewrite (report_no_table dirty false). unfold report. cbn [negb]. cbv iota.
   destruct (first_run_checkpoint hash (lin false) eq_refl eq_refl) as [H _].
   fold (lin false). rewrite (H pre ck rest Hck Hrest). cbn [fst].
   rewrite Nat.eqb_refl. reflexivity.
@@ -279,7 +280,7 @@ Lemma report_fresh_no_checkpoint dirty (revs : list rev) all :
   report false dirty all revs =
   SOk (mkStatus all [] all [] CurNone (NextVer (f_version (hd (mkFile [] [] false) all))) 0 0 false false).
 Proof.
-  intros Hn Hne. rewrite report_no_table. unfold report. cbn [negb]. cbv iota.
+  intros Hn Hne. rewrite (report_no_table dirty false). unfold report. cbn [negb]. cbv iota.
   destruct (first_run_checkpoint hash (lin false) eq_refl eq_refl) as [_ H].
   fold (lin false). rewrite (H all Hn). destruct all as [|a l]; [congruence|]. cbn [fst finish].
   rewrite Nat.eqb_refl. reflexivity.
